@@ -472,6 +472,108 @@ func dbDataset(o *hx.Out, r *hx.Rng, desc string) {
 	o.CountN("live-user-keys(sum over data sets)", len(e.live))
 }
 
+// dbScaleDataset: a few hundred keys under two prefixes (one on each side of the internal keys), some of them deleted
+// one by one, then delete-range requests whose range holds EXACTLY n live keys (counted in the reference) for n around
+// db.DeleteRangeThreshold (100: up to it the keys are deleted one by one, above it with one range tombstone):
+// every key of the range must be gone, every neighbour alive — list / range-scan of the prefix and the whole key space,
+// exact get and floor / ceiling / lower / higher at both ends of the range, in memory, after a flush, after reopen.
+func dbScaleDataset(o *hx.Out, r *hx.Rng, desc string, counts []int) {
+	e := newDBEnv(o, desc)
+	defer e.close()
+	prefixes := []string{"A/", "users/"}
+	seen := map[string]bool{}
+	var puts []string
+	needP := []int{30, 30} // per prefix: what its ranges consume, what the single deletes remove, and a margin
+	for ci, c := range counts {
+		needP[ci%2] += c + c/6 + 10
+	}
+	for pi, pfx := range prefixes {
+		for n := 0; n < needP[pi]; {
+			k := pfx
+			for m := 1 + r.Intn(5); m > 0; m-- {
+				k += string(hx.Pick(r, []byte{'.', '0', '-', 'a', 'b', 0x01, '%', 'z'}))
+			}
+			if r.Chance(15) {
+				k += "/" + string(hx.Pick(r, []byte{'.', '0', 'a'}))
+			}
+			if !seen[k] {
+				seen[k] = true
+				puts = append(puts, k)
+				n++
+			}
+		}
+	}
+	for i := len(puts) - 1; i > 0; i-- { // the write order is not the key order
+		j := r.Intn(i + 1)
+		puts[i], puts[j] = puts[j], puts[i]
+	}
+	for i := 0; i < len(puts); i += 120 {
+		j := i + 120
+		if j > len(puts) {
+			j = len(puts)
+		}
+		e.write(puts[i:j], nil, nil)
+	}
+	// keys already deleted inside the future ranges
+	var dels []string
+	for _, k := range puts {
+		if r.Chance(8) {
+			dels = append(dels, k)
+		}
+	}
+	e.write([]string{"a", "users", "__oxia0/x"}, dels, nil)
+
+	check := func(phase string, around []string) {
+		e.list(phase, "A/", "A/~")
+		e.list(phase, "users/", "users/~")
+		e.list(phase, "", "")
+		e.gets(phase, around)
+	}
+	var around []string
+	for ci, n := range counts {
+		// the live keys of one prefix, in slash order; the range is [ks[i], ks[i+n]) : exactly n live keys
+		pfx := prefixes[ci%2]
+		var ks []string
+		for _, k := range e.sortedLive() {
+			if strings.HasPrefix(k, pfx) {
+				ks = append(ks, k)
+			}
+		}
+		if len(ks) < n+2 {
+			o.Count("scale:skipped(not enough live keys)")
+			continue
+		}
+		i := 1 + r.Intn(len(ks)-n-1)
+		lo, hi := ks[i], ks[i+n]
+		cnt := 0
+		for k := range e.live {
+			if inRange(k, lo, hi) {
+				cnt++
+			}
+		}
+		if cnt != n {
+			panic(fmt.Sprintf("scale generator: range [%q,%q) holds %d live keys, wanted %d", lo, hi, cnt, n))
+		}
+		o.Count(fmt.Sprintf("scale:delete-range-holding-exactly-%d-live-keys", n))
+		e.desc = fmt.Sprintf("%s, after DeleteRange[%q, %q) holding exactly %d live keys", desc, lo, hi, n)
+		e.write(nil, nil, [][2]string{{lo, hi}})
+		around = append(around, lo, ks[i+n-1], ks[i-1], hi, ks[i+n-1]+"\x01", ks[i+n/2])
+		phase := "memtable"
+		if ci > 0 {
+			phase = "after-flush+memtable"
+		}
+		check(phase, around)
+		hx.Must(kv.VerifDBStore(e.db).Flush())
+		o.Count("op:flush")
+		check("after-flush", around)
+	}
+	hx.Must(e.db.Close())
+	e.open()
+	o.Count("op:reopen")
+	check("after-reopen", around)
+	o.CountN("live-user-keys(sum over data sets)", len(e.live))
+}
+
 // replay of one dblist / dbrscan case line: the keys are written, the phase action applied, the range scanned
 func dbReplay(o *hx.Out, fields []string, n int) {
 	if len(fields) < 4 {
@@ -514,6 +616,12 @@ func mainDB(f hx.Flags, o *hx.Out) {
 		for i := 0; i < f.N; i++ {
 			dbDataset(o, r.Fork(), fmt.Sprintf("seed %d db data set %d", f.Seed, i))
 			o.Count("dataset:db")
+			if i%4 == 0 {
+				// the threshold itself in every scale data set, the other sizes in turn
+				other := [][]int{{1, 99}, {101, 200}}[(i/4)%2]
+				dbScaleDataset(o, r.Fork(), fmt.Sprintf("seed %d db scale data set %d", f.Seed, i/4), append([]int{100}, other...))
+				o.Count("dataset:db-scale")
+			}
 		}
 	}
 	o.Close()
